@@ -217,7 +217,7 @@ func vfGenFailCmd(t *rapid.T, m *vfModel) vfCmd {
 			case "bad-target":
 				c.Targets = append(c.Targets, rapid.SampledFrom(vfBadTargets).Draw(t, "bad"))
 			case "dead-target":
-				c.Targets = append(c.Targets, vfDeadPool[0])
+				c.Targets = []string{rapid.SampledFrom(vfFailPool).Draw(t, "live-sibling"), vfDeadPool[0]}
 				c.DeployMs = rapid.SampledFrom([]int{300, 1000, 2500}).Draw(t, "deploy-ms")
 			case "tls-wildcard":
 				c.Spec = vfSvcSpec{Name: svc, Hosts: []string{"*.wild.test"}}
@@ -230,7 +230,8 @@ func vfGenFailCmd(t *rapid.T, m *vfModel) vfCmd {
 			}
 		case "redeploy-dead":
 			svc := rapid.SampledFrom(names).Draw(t, "svc")
-			c = vfCmd{Op: "deploy", Svc: svc, Spec: m.Svcs[svc].Spec, Opt: m.Svcs[svc].Opt, Targets: []string{vfFailPool[1], vfDeadPool[1]}, DeployMs: 700}
+			c = vfCmd{Op: "deploy", Svc: svc, Spec: m.Svcs[svc].Spec, Opt: m.Svcs[svc].Opt, Targets: []string{vfFailPool[1], vfDeadPool[1]},
+				DeployMs: rapid.SampledFrom([]int{700, 2500}).Draw(t, "deploy-ms")}
 		case "redeploy-bad-pages":
 			svc := rapid.SampledFrom(names).Draw(t, "svc")
 			c = vfCmd{Op: "deploy", Svc: svc, Spec: m.Svcs[svc].Spec, Opt: m.Svcs[svc].Opt, Targets: []string{vfFailPool[1]}, Fault: "bad-pages"}
@@ -247,7 +248,8 @@ func vfGenFailCmd(t *rapid.T, m *vfModel) vfCmd {
 			c = vfCmd{Op: "rollout-set", Svc: svc, Pct: 30}
 		case "rollout-dead":
 			svc := rapid.SampledFrom(names).Draw(t, "svc")
-			c = vfCmd{Op: "rollout-deploy", Svc: svc, Targets: []string{vfFailPool[0], vfDeadPool[0]}, DeployMs: 600}
+			c = vfCmd{Op: "rollout-deploy", Svc: svc, Targets: []string{rapid.SampledFrom(vfFailPool).Draw(t, "live-sibling"), vfDeadPool[0]},
+				DeployMs: rapid.SampledFrom([]int{600, 2500}).Draw(t, "deploy-ms")}
 		case "rollout-bad":
 			svc := rapid.SampledFrom(names).Draw(t, "svc")
 			c = vfCmd{Op: "rollout-deploy", Svc: svc, Targets: []string{vfFailPool[0], rapid.SampledFrom(vfBadTargets).Draw(t, "bad")}}
